@@ -679,11 +679,12 @@ def run(rep, tier):
     rep.floor("epoll changes of a record's identifier", c06_audit.epoll_owner_rule(rep, u), 3)
     c06_audit.clock_rule(rep, fp, vals)
     rep.floor("read/write removal sites", c06_audit.rw_kind_rule(rep, fp, vals), 1)
-    rep.floor("refusal obligations", c06_audit.refuse_rule(rep, u, vals, opt), 4)
+    rep.floor("refusal obligations", c06_audit.refuse_rule(rep, u, vals, opt), 5)
     rep.floor("closes of pool-created descriptors", c06_audit.close_after_del_rule(rep, u), 5)
     rep.floor("tpdata marks and disabled stores", c06_audit.tpdata_bookkeeping_rule(rep, fp, fl_, vals), 3)
     rep.floor("thread stores in the add entry points", c06_audit.add_target_rule(rep, u), 1)
     rep.floor("refusable adds", c06_audit.refused_add_rule(rep, u), 1)
+    rep.floor("live records re-added", c06_audit.live_record_rule(rep, u), 1)
     rep.floor("descriptor-based ENOENT exits", c06_audit.tfd_kind_rule(rep, fp), 3)
     c06_audit.tpdata_snapshot_rule(rep, fl_)
     return driver.finish(
